@@ -656,6 +656,26 @@ fn round_blocking(rt: &tokio::runtime::Runtime, seed: u64, hb: &Heartbeat, tot: 
         std::thread::sleep(Duration::from_millis(60));
         let (a2, sh2) = (a.clone(), sh.clone());
         let short = std::thread::spawn(move || send_blocking(&sh2, Ctx::Client(41), 0, &a2, BKind::TellTo(20), Body::plain(uid())));
+        // ... and must not make a timed blocking send into the EMPTY mailbox of an unrelated actor wait at all
+        {
+            let handled = Arc::new(AtomicU64::new(0));
+            let (idle, ijh) = {
+                let _g = rt.enter();
+                rsactor::spawn_with_mailbox_capacity::<ab::A>(ab::Args { handled, start_ms: 0, ticks: false }, 4)
+            };
+            std::thread::sleep(Duration::from_millis(5));
+            let t = Instant::now();
+            let r1 = idle.blocking_tell(ab::Work(1, 0), Some(Duration::from_secs(5)));
+            let e1 = t.elapsed();
+            let r2 = idle.blocking_ask(ab::Work(2, 0), Some(Duration::from_secs(5)));
+            let e2 = t.elapsed();
+            *o.entry("C09.no_idle_wait").or_default() += 2;
+            if (r1.is_err() || r2.is_err() || e2 > Duration::from_millis(1500)) && hb.max_late_since(bucket0) < STALL_US {
+                v.push(("C09.no_idle_wait".into(), format!("[blocking] while another thread's blocking_ask(Some(3 s)) was waiting on a busy actor, blocking_tell/blocking_ask(Some(5 s)) into the empty mailbox (capacity 4) of an idle, unrelated actor returned {r1:?} after {e1:?} and {r2:?} after {e2:?}: a send waited although a slot was free")));
+            }
+            let _ = idle.kill();
+            let _ = rt.block_on(async { tokio::time::timeout(Duration::from_secs(5), ijh).await });
+        }
         let (sres, sel) = short.join().unwrap();
         *o.entry("C17.deadline").or_default() += 1;
         *o.entry("C10.independent_deadlines").or_default() += 1;
@@ -857,7 +877,12 @@ fn round_blocking(rt: &tokio::runtime::Runtime, seed: u64, hb: &Heartbeat, tot: 
     // 5c. ... and a zero timeout is a call that may only succeed at once: Ok or Timeout, promptly, never a panic
     for kind in [BKind::TellTo(0), BKind::AskTo(0), BKind::ErasedTell(Some(0)), BKind::ErasedAsk(Some(0))] {
         let (a2, sh2) = (a.clone(), sh.clone());
-        let th = std::thread::spawn(move || send_blocking(&sh2, Ctx::Client(18), 0, &a2, kind, Body::plain(uid())));
+        let th = std::thread::spawn(move || {
+            let out = send_blocking(&sh2, Ctx::Client(18), 0, &a2, kind, Body::plain(uid()));
+            // the same thread goes on at once: whatever the timed call did is over, a later message can never overtake it
+            send_blocking(&sh2, Ctx::Client(18), 0, &a2, BKind::Tell, Body::plain(uid()));
+            out
+        });
         *o.entry("C17.any_timeout_value").or_default() += 1;
         match th.join() {
             Ok((res, el)) => {
